@@ -77,7 +77,7 @@ def run(ctx, replay):
             if sig not in SKIP:
                 ctx.violation(msg, {"kind": "oracle", "case": c, "signature": sig, "case_line": mc.case_line(c)})
         return
-    n_rand = 1500 if ctx.tier == "quick" else 30000
+    n_rand = 4000 if ctx.tier == "quick" else 30000
     cases = [(label, dict(c, maxcb=c.get("maxcb", 60000), log=1), exp) for label, c, exp in CORPUS]
     cases += [("random", dict(mc.gen_c18(ctx.rng), log=1), None) for _ in range(n_rand)]
     res = mc.run_cases(exe, [c for _, c, _ in cases])
